@@ -207,13 +207,15 @@ func (lex *Lexer) call(state int, fnext int) {
 }
 
 func (lex *Lexer) ret(n int) {
-	lex.top = lex.top - n
-	if lex.top < 0 {
+	if lex.top < n {
+		// an unmatched closing brace: there is no state to return to, stay where we are
+		// (the stack slice may still hold states of calls that have already returned)
 		lex.top = 0
+		lex.p++
+		return
 	}
-	if lex.top < len(lex.stack) {
-		lex.cs = lex.stack[lex.top]
-	}
+	lex.top = lex.top - n
+	lex.cs = lex.stack[lex.top]
 	lex.p++
 }
 
